@@ -456,7 +456,9 @@ def sym_bad_lines(ctx, rng):
         "IDENT=1Ah", "DLCx=3", "Typo=Extended", "Variant=2", "Muxer=1", "CycleTimeFast=7", "Titlepage=1",
     ]
     truncated = [
-        "[TruncFrame", '["Trunc Frame', "ID=", "ID=1F", "ID=1", "DLC=", "CycleTime=", "Type=", "Type=Ext",
+        # (ID=1F / ID=1 without the 'h' suffix are NOT in the pool: whether a plain number is legal after ID= in PEAK's format is
+        #  not settled by the documentation at hand, so such a line is not malformed for sure.  The reader drops the last character.)
+        "[TruncFrame", '["Trunc Frame', "ID=", "DLC=", "CycleTime=", "Type=", "Type=Ext",
         "Var=", "Var=TruncSig", "Var=TruncSig unsigned", "Var=TruncSig unsigned 8", "Var=TruncSig unsigned 8,",
         "Var=TruncSig unsigned 8,8 /f:", "Var=TruncSig unsigned 8,8 /f", "Var=TruncSig unsigned 8,8 -m /u:km/h /o:", 'Var="Trunc Sig',
         'Var=TruncSig unsigned 8,8 /u:"un', "Var=TruncSig sig",
@@ -670,6 +672,68 @@ def check_cut(f, exp, cut):
 
 
 # ------------------------------------------------------------------------------------------------------------------
+# failure classes:  <reader>-<class>:<statement kind>-<fault kind>
+# ------------------------------------------------------------------------------------------------------------------
+SYM_PREFIX_KEYWORDS = ("IDENT=", "DLCx=", "Typo=", "Variant=", "Muxer=", "CycleTimeFast=", "Titlepage=")
+
+
+def stmt_kind(fmt, line, kind):
+    """statement kind of an inserted line, fine enough that one repair corresponds to a set of keys"""
+    l = line.strip()
+    if fmt == "dbc":
+        if kind == "unknown":
+            return "other"
+        tok = dbc_first_token(l)
+        if tok == "BA_":
+            m = re.match(r'BA_ +"([^"]*)', l)
+            name = m.group(1) if m else ""
+            if name in ("GenMsgCycleTime", "GenSigStartValue", "GenSigCycleTime"):
+                return "BA_Gen"          # attributes the reader itself converts to numbers
+            if name in ("VFrameFormat", "FrEnumAttr", "SigEnumAttr"):
+                return "BA_enum"         # enumeration attributes (converted from index to label after reading)
+        return tok
+    if kind == "unknown":
+        return "keyword-prefix" if l.startswith(SYM_PREFIX_KEYWORDS) else "other"
+    if l.startswith("["):
+        return "[frame]"
+    key = re.split(r"[= ]", l, 1)[0]
+    if key in ("Var", "Mux") and re.search(r" (-[mh]|/)", l):
+        return key + "(switch)"          # the malformed part is a switch behind the mandatory fields
+    return key
+
+
+def fkey(fmt, cls, line, kind):
+    return "%s-%s:%s-%s" % (fmt, cls, stmt_kind(fmt, line, kind), kind)
+
+
+def check_inserts(f, st, inserts):
+    """loads the file with the given lines inserted; returns (violations, faulted_bytes); violations = (class, what, expected, observed)"""
+    fmt = f["fmt"]
+    ins = [(f["positions"][pi], l.encode("latin1")) for pi, _, l in inserts]
+    data2 = insert_lines(f["lines"], ins, f["eol"])
+    db, err = load(data2, fmt)
+    kinds = sorted({k for _, k, _ in inserts})
+    out = []
+    if err:
+        out.append(("typed-raises" if kinds == ["typed"] else "badline-raises",
+                    "an exception escapes loads() of a %s file with inserted %s line(s)" % (fmt, "/".join(kinds)), "no exception", err))
+        return out, data2
+    if "typed" not in kinds:
+        df = matgen.diff(st["nf"], nf_of(db))
+        if df:
+            out.append(("badline-changes-result", "inserted %s line(s) change what the reader returns" % "/".join(kinds),
+                        "normal form of the clean file", [list(map(str, d)) for d in df[:4]]))
+    if fmt == "sym":
+        want = st["nerr"] + sum(1 for pi, k, l in inserts
+                                if k in ("truncated", "wrongtype") and f["sections"][pi] == "frames"
+                                and not l.startswith(SYM_LOAD_ERROR_EXEMPT))
+        if len(db.load_errors) != want:
+            out.append(("badline-not-recorded", "load_errors does not hold one entry per statement that failed to parse", want,
+                        len(db.load_errors)))
+    return out, data2
+
+
+# ------------------------------------------------------------------------------------------------------------------
 # worker side
 # ------------------------------------------------------------------------------------------------------------------
 _CACHE = {}
@@ -706,37 +770,32 @@ def work(item):
         return res
     if task == "ins":
         for inserts in payload:          # inserts: list of (position_index, kind, line)
-            ins = [(f["positions"][pi], l.encode("latin1")) for pi, _, l in inserts]
-            data2 = insert_lines(f["lines"], ins, f["eol"])
-            db, err = load(data2, fmt)
             res["n"] += 1
             kinds = sorted({k for _, k, _ in inserts})
             cnt("%s-insert-%d" % (fmt, len(inserts)))
             for k in kinds:
                 cnt("%s-kind-%s" % (fmt, k))
-            last = max(pi for pi, _, _ in inserts)
             if f["positions"][min(pi for pi, _, _ in inserts)] < len(f["lines"]):
                 res["nontrivial"].append(hash((f["name"], tuple(inserts))))
-            inp = dict(file=f["name"], format=fmt, inserted=[dict(before_line=f["positions"][pi] + 1, kind=k, line=l) for pi, k, l in inserts],
-                       faulted_file_b64=b64(data2))
-            if err:
-                key = "%s-typed-raises" % fmt if kinds == ["typed"] else "%s-badline-raises" % fmt
-                res["viol"].append((key, "an exception escapes loads() of a %s file with inserted %s line(s)" % (fmt, "/".join(kinds)),
-                                    inp, "no exception", err))
+            viol, data2 = check_inserts(f, st, inserts)
+            if not viol:
                 continue
-            if "typed" not in kinds:
-                df = matgen.diff(st["nf"], nf_of(db))
-                if df:
-                    res["viol"].append(("%s-badline-changes-result" % fmt,
-                                        "inserted %s line(s) change what the reader returns" % "/".join(kinds), inp,
-                                        "normal form of the clean file", [list(map(str, d)) for d in df[:4]]))
-            if fmt == "sym":
-                want = st["nerr"] + sum(1 for pi, k, l in inserts
-                                        if k in ("truncated", "wrongtype") and f["sections"][pi] == "frames"
-                                        and not l.startswith(SYM_LOAD_ERROR_EXEMPT))
-                if len(db.load_errors) != want:
-                    res["viol"].append(("sym-badline-not-recorded", "load_errors does not hold one entry per statement that failed to parse",
-                                        inp, want, len(db.load_errors)))
+            todo = []
+            if len(inserts) > 1:
+                # attribute the failure of a multiset to the inserted lines that fail on their own
+                for one in inserts:
+                    v1, d1 = check_inserts(f, st, [one])
+                    todo += [(c, w, e, o, [one], d1) for c, w, e, o in v1]
+            if not todo:
+                todo = [(c, w, e, o, inserts, data2) for c, w, e, o in viol]
+            for c, what, exp, obs, which, data in todo:
+                if len(which) == 1:
+                    key = fkey(fmt, c, which[0][2], which[0][1])
+                else:
+                    key = "%s-%s:multiset-only" % (fmt, c)        # fails only in combination
+                inp = dict(file=f["name"], format=fmt, inserted=[dict(before_line=f["positions"][pi] + 1, kind=k, line=l) for pi, k, l in which],
+                           faulted_file_b64=b64(data))
+                res["viol"].append((key, what, inp, exp, obs))
     elif task == "cut":
         for cut in payload:
             bad, nobj = check_cut(f, st["exp"], cut)
@@ -745,8 +804,11 @@ def work(item):
             cnt("%s-cut-objects-compared" % fmt, nobj)
             if nobj:
                 res["nontrivial"].append(hash((f["name"], "cut", cut)))
+            cutline = next((raw for (a0, _, e0, raw) in f["lines"] if a0 <= cut < e0), b"")
+            cl = cutline.decode("latin1").strip()
+            ck = (dbc_first_token(cl) if fmt == "dbc" else ("[frame]" if cl.startswith("[") else re.split(r"[= (]", cl, 1)[0])) or "end-of-file"
             for suffix, what, exp, obs in bad:
-                res["viol"].append(("%s-%s" % (fmt, suffix), what, dict(file=f["name"], format=fmt, cut_after_bytes=cut,
+                res["viol"].append(("%s-%s:%s-cut" % (fmt, suffix, ck), what, dict(file=f["name"], format=fmt, cut_after_bytes=cut,
                                                                         cut_file_b64=b64(f["data"][:cut])), exp, obs))
     return res
 
@@ -828,10 +890,10 @@ def witnesses(chk):
         inp = dict(file="witness.dbc", format="dbc", inserted=[dict(kind=kind, line=line)], faulted_file_b64=b64(data),
                    theorem="C20_dbc_orig_fail_before_mutation_refuted / C20_dbc_orig_post_total_refuted")
         if err:
-            chk.violation("dbc-typed-raises" if kind == "typed" else "dbc-badline-raises",
+            chk.violation(fkey("dbc", "typed-raises" if kind == "typed" else "badline-raises", line, kind),
                           "an exception escapes loads() (witness of the refuted theorem about the reader as found)", inp, "no exception", err)
         elif kind != "typed" and matgen.diff(nf0, nf_of(db)):
-            chk.violation("dbc-badline-changes-result", "a failing statement has changed the matrix before failing (witness of the refuted "
+            chk.violation(fkey("dbc", "badline-changes-result", line, kind), "a failing statement has changed the matrix before failing (witness of the refuted "
                           "theorem about the reader as found)", inp, "normal form of the clean file",
                           [list(map(str, d)) for d in matgen.diff(nf0, nf_of(db))[:4]])
     # envelope: a failing statement between a BO_ line and its SG_ line may lose the signal (C20_dbc_insertion_inside_signal_list_refuted)
@@ -852,10 +914,10 @@ def witnesses(chk):
         inp = dict(file="witness.sym", format="sym", inserted=[dict(kind="wrongtype", line=line)], faulted_file_b64=b64(full),
                    theorem="C20_sym_orig_refuted")
         if err:
-            chk.violation("sym-badline-raises", "an exception escapes loads() (witness of the refuted theorem about the reader as found)",
+            chk.violation(fkey("sym", "badline-raises", line, "wrongtype"), "an exception escapes loads() (witness of the refuted theorem about the reader as found)",
                           inp, "no exception", err)
         elif matgen.diff(nf0, nf_of(db)):
-            chk.violation("sym-badline-changes-result", "a failing Mux= line changes what follows (witness of the refuted theorem about "
+            chk.violation(fkey("sym", "badline-changes-result", line, "wrongtype"), "a failing Mux= line changes what follows (witness of the refuted theorem about "
                           "the reader as found)", inp, "normal form of the clean file",
                           [list(map(str, d)) for d in matgen.diff(nf0, nf_of(db))[:4]])
 
@@ -917,7 +979,7 @@ def run(chk):
                 chk.count(k, n)
             for key, what, inp, exp, obs in res["viol"]:
                 chk.count("failing-" + key)
-                if chk.hist["failing-" + key] <= 6:          # core keeps 50 in total: leave room for every failure class
+                if chk.hist["failing-" + key] <= 1:          # core keeps 50 in total: leave room for every failure class
                     chk.violation(key, what, inp, exp, obs)
     f0 = FILES[0]
     chk.sample(dict(file=f0["name"], fault="line inserted before line %d" % (f0["positions"][3] + 1), line='BA_ "GenMsgCycleTime" BO_ 291 abc;',
